@@ -456,6 +456,7 @@ impl Version {
                         .and_modify(|counter| {
                             counter.bytes += blob_file.bytes;
                             counter.len += blob_file.len;
+                            counter.on_disk_bytes += blob_file.on_disk_bytes;
                         })
                         .or_insert_with(|| {
                             FragmentationEntry::new(
